@@ -18,6 +18,8 @@ ASSUMPTIONS = [
 NAMES = ["info", "warning", "danger", "a.b", "x-y", "z_1", "bold", "repr.number", "rule.line", "red"]
 DEFINITIONS = ["bold red", "not bold", "on blue", "#00ff00", "link https://q.example", "none", "italic u"]
 BAD = ["no such style", "foo bar baz", "on", "not", "link", "bold nope"]
+# theme names are lower case (documented); a differently cased spelling is not a theme name: it is parsed as a definition (style words are case-insensitive) or missing
+CASED = ["RED", "BOLD", "Info", "WARNING", "Rule.Line", "Bold Red", "DANGER"]
 
 
 class Boom(Exception):
@@ -51,7 +53,7 @@ def build_theme(ts):
 class Stack(Part):
     name = "stack"
     rule = ("4 generated themes over 10 names (some shadowing Rich defaults) x base theme (default or custom) x <=15 nested ops push(inherit)/pop/"
-            "use_theme(inherit){...}[raises]; after every step every name, 7 definitions and 6 unparseable names are looked up and compared with a "
+            "use_theme(inherit){...}[raises]; after every step every name, 7 definitions, 6 unparseable names and 7 differently-cased spellings of theme names are looked up and compared with a "
             "reference stack of (definitions, inherit); non-trivial = >=2 pushes live at once with one non-inheriting, and a lookup fell through >=2 levels")
     budget = {"quick": (8, 1000), "thorough": (16, 8000)}
 
@@ -102,7 +104,7 @@ class Stack(Part):
                 return ("missing",)
 
         def look(where):
-            for name in NAMES + DEFINITIONS + BAD:
+            for name in NAMES + DEFINITIONS + BAD + CASED:
                 want = expected(name)
                 try:
                     got = ("style", GS.style_view(con.get_style(name)))
@@ -111,7 +113,7 @@ class Stack(Part):
                 except Exception as e:  # noqa
                     raise SutError(e)
                 if got != want:
-                    kind = "name" if name in NAMES else ("definition" if name in DEFINITIONS else "unparseable")
+                    kind = "name" if name in NAMES else ("definition" if name in DEFINITIONS else ("cased" if name in CASED else "unparseable"))
                     ctx.violation("lookup", "C20/lookup/%s-%s" % (kind, where.split(":")[0]), "after %s: get_style(%r) -> %r, expected %r (stack depth %d)" % (where, name, got, want, len(stack)))
                     return False
             return True
@@ -191,14 +193,16 @@ class Stack(Part):
 class Config(Part):
     name = "config"
     rule = ("themes with <=10 styles from the C06 style space (links may contain % # ; = :) x inherit: Theme.from_file(StringIO(theme.config)) has an equal "
-            "name -> style map; non-trivial = >=3 styles including a link or hex colour")
+            "name -> style map; the text read without inheriting is complete; a theme read from a (partial) file round-trips again; the text follows later edits of "
+            "theme.styles; non-trivial = >=3 styles including a link or hex colour")
     budget = {"quick": (8, 600), "thorough": (16, 6000)}
 
     def strategy(self, tier):
         link = st.sampled_from(["https://a.b/%20x", "https://a.b/#frag", "https://a.b/?q=1;r=2", "https://a.b/x:y", "http://plain.example", "https://a.b/100%"])
         sp = st.builds(lambda s, l: dict(s, link=l), GS.style_spec(links=False), st.one_of(st.none(), st.none(), link))
         names = st.sampled_from(NAMES + ["n1", "long.name-with_all", "q"])
-        return st.builds(lambda styles, inh: {"styles": styles, "inherit": inh}, st.dictionaries(names, sp, max_size=10), st.booleans())
+        return st.builds(lambda styles, inh, partial, edit: {"styles": styles, "inherit": inh, "partial": partial, "edit": edit}, st.dictionaries(names, sp, max_size=10), st.booleans(),
+                         st.one_of(st.none(), st.integers(0, 9)), st.one_of(st.none(), st.integers(0, 6)))
 
     def check(self, spec, ctx):
         from rich.theme import Theme
@@ -220,6 +224,44 @@ class Config(Part):
             if not (theme.styles[k] == back.styles[k]):
                 ctx.violation("config", "C20/config/unequal", "style %r: %r != %r" % (k, theme.styles[k], back.styles[k]))
                 return
+        # the config text is complete: read without inheriting it still gives every style; and a theme that was itself read from a file round-trips again
+        def same(x, y, what):
+            xa = {k: GS.style_view(v) for k, v in x.styles.items()}
+            ya = {k: GS.style_view(v) for k, v in y.styles.items()}
+            if xa != ya:
+                diff = sorted(k for k in set(xa) | set(ya) if xa.get(k) != ya.get(k))
+                ctx.violation("config", "C20/config/%s" % what, "%s: %d styles differ, e.g. %r: %r vs %r" % (what, len(diff), diff[:3], [xa.get(k) for k in diff[:3]], [ya.get(k) for k in diff[:3]]))
+                return False
+            return True
+
+        try:
+            bare = Theme.from_file(io.StringIO(text), inherit=False)
+            if not same(theme, bare, "incomplete-text"):
+                return
+            text2 = back.config
+            again = Theme.from_file(io.StringIO(text2), inherit=False)
+            if not same(back, again, "second-generation"):
+                return
+            if spec.get("partial") is not None and spec["styles"]:
+                # a theme read from a partial file on top of the defaults
+                keep = sorted(spec["styles"])[: 1 + spec["partial"] % len(spec["styles"])]
+                ptext = "[styles]\n" + "".join(l + "\n" for l in text.split("\n") if l.split(" = ")[0] in keep)
+                loaded = Theme.from_file(io.StringIO(ptext), inherit=True)
+                reread = Theme.from_file(io.StringIO(loaded.config), inherit=False)
+                if not same(loaded, reread, "partial-file"):
+                    return
+            if spec.get("edit") is not None:
+                # the config text follows the theme's current styles
+                from rich.style import Style
+                theme.styles["edited.name"] = Style.parse(DEFINITIONS[spec["edit"] % len(DEFINITIONS)])
+                reread = Theme.from_file(io.StringIO(theme.config), inherit=False)
+                if not same(theme, reread, "stale-after-edit"):
+                    return
+        except SutError:
+            raise
+        except Exception as e:  # noqa
+            ctx.violation("config", "C20/config/%s" % type(e).__name__, "config re-read raised %r" % (e,))
+            return
         if len(spec["styles"]) >= 3 and any(v["link"] or (v["color"] or "").startswith("#") for v in spec["styles"].values()):
             ctx.nontrivial = True
 
